@@ -86,6 +86,13 @@ pub struct Runner<'a> {
     pub ctls: Vec<Ctl>,
     pub replies: Vec<(usize, String)>,
     pub flag: Arc<Flag>,
+    /// wakers of the control-request futures (kept apart from the stream's)
+    pub ctl_flag: Arc<Flag>,
+    /// strict executor: the stream is polled only after its waker was woken or right after it delivered an event
+    pub strict: bool,
+    /// every poll of the stream gets a waker of its own; only a wake-up of the most recent one counts
+    pub fresh: bool,
+    pub need_poll: bool,
     pub ended: bool,
     pub polls: u64,
     pub stalled_wakeups: u64,
@@ -106,7 +113,7 @@ pub enum UnitEnd { Idle, Negative, Stalled, StreamEnded, Crashed, Panicked }
 
 impl<'a> Runner<'a> {
     pub fn poll_ctls(&mut self) {
-        let waker = Waker::from(self.flag.clone());
+        let waker = Waker::from(self.ctl_flag.clone());
         let mut cx = Context::from_waker(&waker);
         for c in self.ctls.iter_mut() {
             if c.done { continue; }
@@ -155,11 +162,15 @@ impl<'a> Runner<'a> {
 
     fn poll_stream_once(&mut self) -> bool {
         if self.ended { return false; }
+        if self.strict && !self.need_poll && !self.flag.0.load(Ordering::SeqCst) { return false; }
+        if self.fresh { self.flag = Arc::new(Flag(AtomicBool::new(false))); }
         let waker = Waker::from(self.flag.clone());
         let mut cx = Context::from_waker(&waker);
         self.flag.0.store(false, Ordering::SeqCst);
         self.polls += 1;
-        match self.stream.as_mut().poll_next(&mut cx) {
+        let r = self.stream.as_mut().poll_next(&mut cx);
+        self.need_poll = matches!(r, Poll::Ready(Some(_)));
+        match r {
             Poll::Ready(Some(ev)) => {
                 let line = event_line(&ev);
                 let mut h = self.hub.lock().unwrap();
